@@ -643,6 +643,15 @@ class ExprMixin:
             if isinstance(v, Raised):
                 outs.append((s, v))
                 continue
+            if isinstance(v, Ref) and v.kind == "obj" and v.cls is not None and v.cls.lookup("__bool__") is None:
+                hit = v.cls.lookup("__len__")
+                if hit and hit[0] == "method":
+                    for s2, ln in self.call_func(s, fr, test, hit[1], v.cls, v, [], {}):
+                        if isinstance(ln, Raised):
+                            outs.append((s2, ln))
+                        else:
+                            outs.extend(self.decide(test, self.truth(ln, s2, fr), s2, fr, record, ln))
+                    continue
             outs.extend(self.decide(test, self.truth(v, s, fr), s, fr, record, v))
         return outs
 
